@@ -602,8 +602,9 @@ def _ik_op(draw, kinds=("in",) + OUT_KINDS, protect=_RARE):
 
 
 _LAM_IN = G.floats(0.01, 0.99)
-_LAM_HIGH = st.one_of(G.floats(1.001, 1.2), G.floats(1.0, 2.0))
-_LAM_LOW = st.one_of(G.floats(-0.2, -0.001), G.floats(-0.7, 0.0))
+# (a leg a hair outside its range - fractions of a millimetre to centimetres - is as much outside as one far outside)
+_LAM_HIGH = st.one_of(G.floats(1.001, 1.2), G.floats(1.0, 2.0), G.log_uniform(1e-5, 1e-1).map(lambda e: 1.0 + e))
+_LAM_LOW = st.one_of(G.floats(-0.2, -0.001), G.floats(-0.7, 0.0), G.log_uniform(1e-5, 1e-1).map(lambda e: -e))
 _LAM_EDGE = st.sampled_from([0.0, 1.0, 0.0, 1.0, 0.5])
 _LAM_ANY = st.one_of(_LAM_IN, _LAM_HIGH, _LAM_LOW, _LAM_EDGE)
 FK_KINDS = ("pose", "in", "edge", "high", "low", "mixed", "uniform", "one_out")
